@@ -211,7 +211,9 @@ fn enumerate(rt: &Runtime, rep: &mut StageReport) -> Vec<(serde_json::Value, Str
     };
     let mut viol = Vec::new();
     let mut all_exhaustive = true;
-    for f in &files {
+    for (fi, f) in files.iter().enumerate() {
+        let decoy: &[u8] = &files[(fi + 1) % files.len()].bytes;
+        let decoy = if decoy.len() > 200_000 { &files[0].bytes[..] } else { decoy };
         let (faults, exhaustive) = faults_for(f, rt.tier, rt.seed);
         all_exhaustive &= exhaustive;
         let accepted_identical = AtomicU64::new(0);
@@ -227,6 +229,11 @@ fn enumerate(rt: &Runtime, rep: &mut StageReport) -> Vec<(serde_json::Value, Str
                     let _ = std::fs::create_dir_all(&dir);
                     let p = dir.join("d.skf");
                     let ps = cli::p(&p);
+                    // files an editor, a backup tool or an interrupted rewrite may leave next to the damaged file,
+                    // each holding another valid table: the file that was named is the input
+                    for sib in ["d.skf.bak", "d.skf~", "d.skf.tmp", "d.bak", "d.skf.orig"] {
+                        let _ = std::fs::write(dir.join(sib), decoy);
+                    }
                     for (i, fault) in faults.iter().enumerate() {
                         if i % nthreads != w {
                             continue;
@@ -309,6 +316,10 @@ fn cli_sample(rt: &Runtime, rep: &mut StageReport) -> Vec<(serde_json::Value, St
             let dname = if bare { "d" } else { "d.skf" };
             if bare {
                 std::fs::write(dir.join("d.skf"), &other.bytes).unwrap();
+            } else if other.bytes.len() < 200_000 {
+                for sib in ["d.skf.bak", "d.skf~", "d.skf.tmp"] {
+                    std::fs::write(dir.join(sib), &other.bytes).unwrap();
+                }
             }
             let p = dir.join(dname);
             std::fs::write(&p, &data).unwrap();
